@@ -2,8 +2,8 @@
    vm_compute inside Coq or through the OCaml extraction (coq/extract). *)
 From Coq Require Import String.
 From Gemato Require Import Py.PyLit.
-From Gemato Require Import Py.PyStr Py.PyTime Gen.PyFacts Gen.Tables Gen.Util
-  Model.Entry Model.Text Model.OpenPGP Model.Hash Model.FindTop Spec.Cleartext Spec.Accept Exec.Sx Exec.Oracles.
+From Gemato Require Import Py.PyStr Py.PyPath Py.PyTime Gen.PyFacts Gen.Tables Gen.Util
+  Model.Entry Model.Text Model.OpenPGP Model.Hash Model.FindTop Spec.Cleartext Spec.Accept Exec.Sx Exec.Oracles Exec.Tree.
 Open Scope N_scope.
 
 Definition is_cmd (c : ustr) (s : string) : bool := ustr_eqb c (u s).
@@ -21,8 +21,6 @@ Fixpoint encode_sweep_aux (lo : N) (n : nat) (acc : list sx) (ok : bool) : list 
 Definition encode_sweep (lo : N) (n : nat) : sx :=
   let '(l, ok) := encode_sweep_aux lo n [] true in SL [SL l; sbool ok].
 
-Definition dec_otable (x : sx) : otable :=
-  map (fun e => match x_list e with [n; c; d] => (x_str n, x_str c, x_str d) | _ => ([], [], []) end) (x_list x).
 Definition enc_hval (v : hval) : sx := match v with HStr s => SS s | HInt n => sN n end.
 Definition enc_hres (r : list (list N * hval)) : sx := SL (map (fun kv => SL [SS (fst kv); enc_hval (snd kv)]) r).
 
@@ -68,6 +66,11 @@ Definition run_text (c : ustr) (args : list sx) : option sx :=
       else if is_cmd c "disallowed" then Some (sbool (disallowed_path_char (x_N a)))
       else if is_cmd c "encode_path" then Some (SS (encode_path (x_str a)))
       else if is_cmd c "decode_path" then Some (enc_res SS (decode_path (x_str a)))
+      else if is_cmd c "dirname" then Some (SS (dirname (x_str a)))
+      else if is_cmd c "basename" then Some (SS (basename (x_str a)))
+      else if is_cmd c "splitext" then Some (SL [SS (fst (splitext (x_str a))); SS (snd (splitext (x_str a)))])
+      else if is_cmd c "utf8_encode" then Some (sopt SS (utf8_encode (x_str a)))
+      else if is_cmd c "utf8_decode" then Some (sopt SS (utf8_decode (x_str a)))
       else if is_cmd c "from_list" then
         Some (match x_strs a with
               | t :: r => match lookup_tag t with
@@ -92,6 +95,11 @@ Definition run_text (c : ustr) (args : list sx) : option sx :=
       else if is_cmd c "find_path_entry" then Some (sopt enc_entry (find_path_entry (map dec_entry (x_list a)) (x_str b)))
       else if is_cmd c "find_dist_entry" then Some (sopt enc_entry (find_dist_entry (map dec_entry (x_list a)) (x_str b)))
       else if is_cmd c "path_join" then Some (SS (path_join (x_str a) (x_str b)))
+      else if is_cmd c "pjoin" then Some (SS (pjoin (x_str a) (x_str b)))
+      else if is_cmd c "relpath" then Some (SS (relpath (x_str a) (x_str b)))
+      else if is_cmd c "rstrip" then Some (SS (py_rstrip (x_str a) (x_str b)))
+      else if is_cmd c "startswith" then Some (sbool (py_startswith (x_str a) (x_str b)))
+      else if is_cmd c "endswith" then Some (sbool (py_endswith (x_str a) (x_str b)))
       else if is_cmd c "encode_sweep" then Some (encode_sweep (x_N a) (x_nat b))
       else if is_cmd c "verify_file" then
         Some (enc_res (fun d => SL [SS (sig_fp d); SS (sig_ts d); SS (sig_expts d); SS (sig_pkfp d)])
